@@ -71,6 +71,86 @@ def layouts(depth, width):
     return out
 
 
+def random_layouts(rng, count, depth, width):
+    """random sequences of MIXED operator rows: several join groups, splits and terminators on one line (the exhaustive
+    family has one join group per line and nothing else beside it), deeper and wider than the exhaustive family"""
+    out = []
+    for _ in range(count):
+        paths = [0] if rng.random() < 0.6 else [0, 1]
+        rows = []
+        for _d in range(rng.randint(2, depth)):
+            if not paths:
+                break
+            row, i, n = [], 0, len(paths)
+            grow = 0
+            # rows that mostly split while the score is narrow, rows that mostly join / terminate once it is wide
+            mode = 'grow' if n < 4 and rng.random() < 0.8 else rng.choice(['mix', 'shrink', 'shrink'])
+            p_join, p_split, p_term = {'grow': (0.1, 0.6, 0.03), 'mix': (0.3, 0.25, 0.1), 'shrink': (0.6, 0.05, 0.25)}[mode]
+            while i < n:
+                run = 1
+                while i + run < n and paths[i + run] == paths[i]:
+                    run += 1
+                r = rng.random()
+                prev_join = bool(row) and row[-1] == '*v' and paths[i - 1] == paths[i]
+                if run >= 2 and r < p_join and not prev_join:
+                    k = 2 if rng.random() < 0.6 else rng.randint(2, run)
+                    row += ['*v'] * k
+                    i += k
+                    continue
+                r = rng.random()
+                if r < p_split and n + grow < width:
+                    row.append('*^')
+                    grow += 1
+                elif r < p_split + p_term and n > 1:
+                    row.append('*-')
+                else:
+                    row.append('*')
+                i += 1
+            if all(c == '*' for c in row):
+                continue
+            nxt = []
+            for j, op in enumerate(row):
+                if op == '*-':
+                    continue
+                if op == '*^':
+                    nxt += [paths[j], paths[j]]
+                elif op == '*v':
+                    if j > 0 and row[j - 1] == '*v' and paths[j - 1] == paths[j]:
+                        continue
+                    nxt.append(paths[j])
+                else:
+                    nxt.append(paths[j])
+            rows.append(row)
+            paths = nxt
+        if rows:
+            out.append(rows)
+    return out
+
+
+def wide_rows(n):
+    """every operator row over n sub-spines of ONE spine that holds at least one join group (maximal runs of *v have
+    length >= 2), mixed with continuations, splits and terminators in every position"""
+    out = []
+    for row in itertools.product(['*', '*^', '*-', '*v'], repeat=n):
+        if '*v' not in row:
+            continue
+        ok, i = True, 0
+        while i < n:
+            if row[i] == '*v':
+                j = i
+                while j < n and row[j] == '*v':
+                    j += 1
+                if j - i < 2:
+                    ok = False
+                    break
+                i = j
+            else:
+                i += 1
+        if ok:
+            out.append(list(row))
+    return out
+
+
 def layout_text(hdrs, oprows, rng):
     """interleave data rows between the operator rows; cells are distinct so that misplacement shows"""
     lines = ['\t'.join(hdrs)]
@@ -262,6 +342,18 @@ def run(chk):
             hdrs = [rng.choice(['**kern', '**text'])]
         jobs.append(('text', ('layout', layout_text(hdrs, oprows, rng))))
     chk.notes['layouts'] = len(lay)
+    rlay = random_layouts(rng, core.budget(chk, full, 150, 1500), 6, 8)
+    for oprows in rlay:
+        n0 = len(oprows[0])
+        jobs.append(('text', ('mixed-layout', layout_text(['**kern'] * n0 if rng.random() < 0.7 else ['**kern', '**text'][:n0], oprows, rng))))
+    chk.notes['mixed_layouts'] = len(rlay)
+    nwide = 0
+    for n in ([4, 5] if not full else [4, 5, 6]):
+        chain = [['*^'] + ['*'] * k for k in range(n - 1)]
+        for row in wide_rows(n):
+            jobs.append(('text', ('wide-row', layout_text(['**kern'], chain + [row], rng))))
+            nwide += 1
+    chk.notes['wide_rows'] = nwide
     # literal cells
     for lit in LITERALS:
         jobs.append(('text', ('literal', f'**kern\t**text\n4c\t{lit}\n4d\ty\n*-\t*-\n')))
@@ -277,7 +369,9 @@ def run(chk):
     for i in range(ngen):
         jobs.append(('gen', (chk.seed, i)))
     chk.rule = ('every spine-operator layout (split / join runs / terminate per live path) up to depth 3 and width 4 (6 in the '
-                'thorough tier; quick keeps all of depth <= 2 and a seeded third of depth 3), literal cells (quotes, commas, '
+                'thorough tier; quick keeps all of depth <= 2 and a seeded third of depth 3), random MIXED operator rows (several join '
+                'groups, splits and terminators on one line; depth <= 6, width <= 8), EVERY operator row with a join group over 4 and 5 '
+                '(6 in the thorough tier) sub-spines of one spine, literal cells (quotes, commas, '
                 'spaces, non-ASCII, separators), rows with surplus cells / after the last terminator, and generated '
                 'documents with literal cells injected; non-trivial = distinct text')
     results = engine.pmap(worker, jobs)
